@@ -5,6 +5,7 @@
   Core Lean only.
 -/
 import GrogModel.Select
+import GrogModel.Paths
 namespace Grog
 
 /-- `AddEdge(from, to)` on a graph with nodes `0 … n-1`: appends to `outEdges[from]` and `inEdges[to]`
@@ -66,13 +67,16 @@ def rdepsCmd (g : BuildGraph) (s : Selector) (h : Host) (transitive : Bool) (t :
 def listCmd (g : BuildGraph) (s : Selector) (h : Host) : List Bytes :=
   printSortedOld g (selectForQuery g s h)
 
-/-- workspace-relative path of an input of a target in package `pkg`
-    (`filepath.Join(pkg, input)` for cleaned relative `input`) -/
-def pkgJoin (pkg input : Bytes) : Bytes :=
-  if pkg.isEmpty then input else pkg ++ cSlash :: input
+/-- workspace-relative path of an input of a target in package `pkg`:
+    `filepath.Join(target.Label.Package, inputFile)` — joins and *cleans* lexically, so an input written
+    as `./x`, `d/../x` or `a//b` in the BUILD file names the same file as its canonical spelling
+    (`Paths.join` is the model of `filepath.Join` of the analysis group, tied to Go by C11's check). -/
+def pkgJoin (pkg input : Bytes) : Bytes := Paths.join [pkg, input]
 
 /-- `grog owners f₁ f₂ …`: targets one of whose resolved inputs is one of the files.
-    `inputs i` = resolved inputs of node `i` (package-relative), `files` workspace-relative. -/
+    `inputs i` = resolved inputs of node `i` (package-relative, as written in the BUILD file or as
+    returned by the glob resolution), `files` = the arguments after `filepath.Abs`, workspace-relative
+    and cleaned. -/
 def ownersOf (g : BuildGraph) (inputs : Nat → List Bytes) (files : List Bytes) : List Nat :=
   (List.range g.nodes.length).filter (fun i =>
     match g.nodes[i]? with
